@@ -436,6 +436,13 @@ func c10Check(c *core.Ctx, cs c10Case) {
 	}
 	c.Event("accepted", 1)
 	d := r1.DNSRewrite
+	if d == nil && strings.ContainsAny(cs.Value, "$,") {
+		// A '$' or ',' in the value moved the options delimiter or split the
+		// value: the text is a rule without a $dnsrewrite modifier.
+		c.Inconclusive("value-changes-the-option-syntax")
+
+		return
+	}
 	w.Parsed = fmt.Sprintf("%+v", d)
 	c.NonTrivial(core.Hash64(cs.Value))
 	if d != nil && d.RRType != 0 {
